@@ -381,6 +381,14 @@ def gen_case(ctx, k, big=False):
     kindpref = ["width", "number", "ppi"][k % 3] if rng.random() < 0.7 else None
     spec = gen_spec(rng, n_rows, kindpref)
     variant = VARIANTS[(k // 3) % len(VARIANTS)] if rng.random() < 0.7 else rng.choice(VARIANTS)
+    if k % 10 == 4:
+        # float coincidences: decimal widths (no binary fractions) with conditioning values rounded to one decimal,
+        # i.e. many observations exactly on interval edges
+        variant = rng.choice(["rounded1", "ties"])
+        for dm in spec["dims"]:
+            if dm.get("slicer") is not None:
+                dm["slicer"] = {"kind": "width", "width": rng.choice([0.2, 0.3, 0.4, 0.6, 0.7]), "reference": rng.choice(["center", "left", "median"]),
+                                "right_open": rng.random() < 0.5, "value_range": None, "min_n_points": 10, "min_n_intervals": 2}
     data = gen_data(nrng, spec, n_rows, variant)
     perm = [int(i) for i in nrng.permutation(n_rows)]
     refit = rng.random() < 0.5
@@ -1273,8 +1281,16 @@ def exception_oracle(case, notes):
     elif bad == "fds-no-method":
         arg, f, want = data, [None] * (nd - 1) + [{"weights": None}], "ValueError"
     else:
+        # raised lazily, when the last dimension's template is fitted: only if nothing raises before
         arg, f, want = data, [None] * (nd - 1) + [{"method": "moments"}], "ValueError"
+        if not run_fit_raw(build_model(spec), data, [None] * nd)[0]["ok"]:
+            notes["rejected_unjudged"] = notes.get("rejected_unjudged", 0) + 1
+            return None
     ob, _ = run_fit_raw(b1, arg, f)
+    conditioners = {dm["conditional_on"] for dm in spec["dims"] if dm["conditional_on"] is not None}
+    if bad == "too-few-intervals" and not ob["ok"] and \
+            any((spec["dims"][c].get("slicer") or {}).get("kind") == "ppi" for c in conditioners):
+        want = ob["err"]   # fewer rows than n_points: np.split into 0 chunks (ZeroDivisionError) -- rejected, class not part of the property
     if ob["ok"] or ob["err"] != want:
         if bad == "too-few-intervals" and not ob["ok"] and ob.get("engine"):
             notes["engine_errors_unjudged"] = notes.get("engine_errors_unjudged", 0) + 1
